@@ -142,6 +142,8 @@ class PolarsJointUniqueness(Contract):
             # NotImplementedError and numbers the rows through check_output) and to drop_invalid_rows (row-aligned check_output):
             fc = result.attrs.get("failure_cases")
             out["failure_cases_are_materialised"] = isinstance(fc, PP.FrameP) and fc.kind == "DataFrame"
+            # ... and numbers the i-th failure case by the i-th false entry of the row mask: they come in row order
+            out["failure_cases_come_in_row_order"] = isinstance(fc, PP.FrameP) and getattr(fc, "rows_in_data_order", True) is True
             co = result.attrs.get("check_output")
             ok = isinstance(co, PP.FrameP) and PP.CHECK_OUTPUT_KEY in co.cols
             out["reports_a_row_aligned_check_output"] = ok
